@@ -26,6 +26,7 @@ type DiskEntry struct {
 	Data   []byte `json:"data,omitempty"`
 	Target string `json:"target,omitempty"` // symlink target (relative)
 	Mode   uint32 `json:"mode,omitempty"`
+	AgeSec int    `json:"age_sec,omitempty"` // modification time = world start minus this many seconds
 }
 
 type CLIWorld struct {
@@ -134,6 +135,12 @@ func (sc *Scratch) RunCLI(w *CLIWorld) (*CLIOutcome, error) {
 			if err := os.WriteFile(p, d.Data, mode); err != nil {
 				return nil, infraf("disk0: %v", err)
 			}
+		}
+	}
+	for _, d := range w.Disk0 {
+		if d.AgeSec != 0 && d.Kind != "symlink" {
+			t := time.Now().Add(-time.Duration(d.AgeSec) * time.Second)
+			_ = os.Chtimes(filepath.Join(root, d.Path), t, t)
 		}
 	}
 	cwd := filepath.Join(root, w.Cwd)
